@@ -189,9 +189,12 @@ SLICES = {
 }
 # late additions: appended by ops.payloads AFTER the empty slice so that payload indices recorded in known_findings.json stay put
 SLICES_LATE = {
-    "list": [('doc(ol(li(p("a"), pre("bcd"))))', 5, 6, True),  # open through a list item whose required first child was cut off
-             ("raw", 'doc(p())', 1, 1),                       # <p()>(1,1): size 0 but not empty (Slice.max_open of an empty paragraph)
-             ("raw", 'doc(bq(p()))', 2, 2)],                  # <bq(p())>(2,2): the same, two levels
+    "list": [('doc(ol(li(p("a"), pre("bcd"))))', 5, 6, True)],  # open through a list item whose required first child was cut off
+}
+# hand-built slices (expression, open_start, open_end); only the JSON harness (C05) appends them, after the late slices
+SLICES_RAW = {
+    "list": [('doc(p())', 1, 1),                       # <p()>(1,1): size 0 but not empty (Slice.max_open of an empty paragraph)
+             ('doc(bq(p()))', 2, 2)],                  # <bq(p())>(2,2): the same, two levels
 }
 SLICES["basic"] = [s for s in SLICES["list"] if "ul(" not in s[0]]
 SLICES["docmarks"] = SLICES["list"]
@@ -227,10 +230,13 @@ def nslices(schema_name):
 
 
 def late_slices(schema_name):
-    from prosemirror.model import Slice
-    return [Slice(build(schema_name, e[1]).content, e[2], e[3]) if e[0] == "raw" else
-            build(schema_name, e[0]).slice(e[1], e[2], bool(e[3]) if len(e) > 3 else False)
+    return [build(schema_name, e[0]).slice(e[1], e[2], bool(e[3]) if len(e) > 3 else False)
             for e in SLICES_LATE.get(schema_name, [])]
+
+
+def raw_slices(schema_name):
+    from prosemirror.model import Slice
+    return [Slice(build(schema_name, e[0]).content, e[1], e[2]) for e in SLICES_RAW.get(schema_name, [])]
 
 
 def slice_(schema_name, i):
